@@ -20,7 +20,9 @@ pub const F_PID: u32 = 64;
 pub const F_ORDER: u32 = 128;
 pub const F_CWD: u32 = 256;
 pub const F_ARGV: u32 = 512;
-pub const ALL_FAULTS: [(u32, &str); 10] = [(F_ENTROPY, "entropy"), (F_THREAD, "thread"), (F_HISTORY, "history"), (F_ENV, "env"), (F_CLOCK, "clock"), (F_HEAP, "heap"), (F_PID, "pid"), (F_ORDER, "order_policy"), (F_CWD, "cwd"), (F_ARGV, "argv")];
+pub const F_IDENT: u32 = 1024;
+pub const F_FS: u32 = 2048;
+pub const ALL_FAULTS: [(u32, &str); 12] = [(F_IDENT, "identity"), (F_FS, "filesystem"), (F_ENTROPY, "entropy"), (F_THREAD, "thread"), (F_HISTORY, "history"), (F_ENV, "env"), (F_CLOCK, "clock"), (F_HEAP, "heap"), (F_PID, "pid"), (F_ORDER, "order_policy"), (F_CWD, "cwd"), (F_ARGV, "argv")];
 
 pub fn fault_names(mask: u32) -> Vec<&'static str> {
     ALL_FAULTS.iter().filter(|(b, _)| mask & b != 0).map(|(_, n)| *n).collect()
@@ -89,12 +91,18 @@ pub struct HostCfg {
     pub pid: u32,
     pub cwd: String,
     pub argv: Vec<String>,
+    /// simulated host name, uid, number of CPUs (None = the real ones)
+    pub hostname: Option<String>,
+    pub uid: Option<u32>,
+    pub ncpu: Option<u32>,
+    /// file-system view during expansions: (kind 'R' redirect | 'N' absent, key, content for R)
+    pub fs_map: Vec<(char, String, String)>,
     pub events: Vec<Event>,
 }
 
 impl HostCfg {
     pub fn reference() -> HostCfg {
-        HostCfg { entropy_seed: 0, entropy_skip: 0, env: vec![], clock_epoch_ns: 0, clock_step_ns: 1, pid: 1000, cwd: "/".into(), argv: vec![], events: vec![] }
+        HostCfg { entropy_seed: 0, entropy_skip: 0, env: vec![], clock_epoch_ns: 0, clock_step_ns: 1, pid: 1000, cwd: "/".into(), argv: vec![], hostname: None, uid: None, ncpu: None, fs_map: vec![], events: vec![] }
     }
 
     /// which fault dimensions of `self` differ from the reference configuration
@@ -118,6 +126,12 @@ impl HostCfg {
         if self.argv != reference.argv {
             m |= F_ARGV
         }
+        if self.hostname != reference.hostname || self.uid != reference.uid || self.ncpu != reference.ncpu {
+            m |= F_IDENT
+        }
+        if self.fs_map != reference.fs_map {
+            m |= F_FS
+        }
         m
     }
 }
@@ -126,6 +140,8 @@ pub struct Env {
     pub host_bins: Vec<((Backend, Build), PathBuf)>,
     pub shim: PathBuf,
     pub aslr_off: bool,
+    /// where the driver writes the files that SIM_FS_MAP redirects to
+    pub fs_dir: PathBuf,
 }
 
 impl Env {
@@ -161,6 +177,8 @@ pub struct HostLog {
     pub counters: [u64; 9],
     pub env_names: String,
     pub shim_flags: u32,
+    pub fs_calls: u64,
+    pub fs_names: String,
     pub raw: String,
 }
 
@@ -245,6 +263,47 @@ pub fn run_host(env: &Env, backend: Backend, build: Build, texts: &[(u32, String
     cmd.env("SIM_CLOCK_EPOCH_NS", cfg.clock_epoch_ns.to_string());
     cmd.env("SIM_CLOCK_STEP_NS", cfg.clock_step_ns.to_string());
     cmd.env("SIM_PID", cfg.pid.to_string());
+    if let Some(h) = &cfg.hostname {
+        cmd.env("SIM_HOSTNAME", h);
+    }
+    if let Some(u) = cfg.uid {
+        cmd.env("SIM_UID", u.to_string());
+    }
+    if let Some(n) = cfg.ncpu {
+        cmd.env("SIM_NCPU", n.to_string());
+    }
+    {
+        // the kernel's entropy devices are always answered from the host's seeded stream:
+        // a direct read of /dev/urandom must not be a way around the getrandom seam
+        let mut map = String::new();
+        let mut entries: Vec<(char, String, String)> = cfg.fs_map.clone();
+        let mut st = cfg.entropy_seed ^ 0x7572_616e_646f_6d;
+        let mut bytes = String::new();
+        for _ in 0..64 {
+            bytes.push_str(&format!("{:016x}", crate::prng::splitmix64(&mut st)));
+        }
+        for dev in ["/dev/urandom", "/dev/random"] {
+            if !entries.iter().any(|e| e.1 == dev) {
+                entries.push(('R', dev.to_string(), bytes.clone()));
+            }
+        }
+        for (kind, key, content) in &entries {
+            if *kind == 'R' {
+                let name = format!("f-{:016x}", crate::prng::fnv64(content.as_bytes()));
+                let path = env.fs_dir.join(&name);
+                if !path.exists() {
+                    let tmp = env.fs_dir.join(format!("{}.tmp{}", name, std::process::id()));
+                    let _ = std::fs::create_dir_all(&env.fs_dir);
+                    std::fs::write(&tmp, content).map_err(|e| HarnessError(format!("write {}: {}", tmp.display(), e)))?;
+                    let _ = std::fs::rename(&tmp, &path);
+                }
+                map.push_str(&format!("R\t{}\t{}\n", key, path.display()));
+            } else {
+                map.push_str(&format!("N\t{}\t\n", key));
+            }
+        }
+        cmd.env("SIM_FS_MAP", map);
+    }
     cmd.arg("--require-shim");
     cmd.args(&cfg.argv);
     cmd.current_dir(&cfg.cwd);
@@ -298,12 +357,14 @@ pub fn parse_log(out: &str) -> Result<HostLog, HarnessError> {
                     }
                 }
             },
-            "S" if f.len() == 12 => {
+            "S" if f.len() == 14 => {
                 for i in 0..9 {
                     log.counters[i] = f[1 + i].parse().map_err(|_| HarnessError("bad S".into()))?;
                 }
                 log.env_names = unesc(f[10]);
                 log.shim_flags = f[11].parse().map_err(|_| HarnessError("bad S".into()))?;
+                log.fs_calls = f[12].parse().map_err(|_| HarnessError("bad S".into()))?;
+                log.fs_names = unesc(f[13]);
                 saw_s = true;
             },
             "" => {},
@@ -336,7 +397,15 @@ const ENV_NAMES: [&str; 48] = [
     "O2O_SEED", "DOCS_RS", "PATH", "SHELL",
 ];
 
-const ENV_VALUES: [&str; 12] = ["1", "0", "true", "full", "debug", "/tmp/x", "o2o", "0.5.1", "x86_64-unknown-linux-gnu", "UTC", "en_US.UTF-8", ""];
+const ENV_VALUES: [&str; 28] = [
+    "1", "0", "true", "false", "full", "debug", "release", "trace", "/tmp/x", "o2o", "0.5.1", "x86_64-unknown-linux-gnu", "wasm32-unknown-unknown", "windows", "linux", "macos", "UTC", "en_US.UTF-8", "tr_TR.UTF-8", "C", "", "always", "never", "2018", "2021", "nightly", "stable", "yes",
+];
+
+/// what rustc is typically started with; a proc macro can see its host's command line
+const ARGV_POOL: [&str; 26] = [
+    "--edition=2015", "--edition=2018", "--edition=2021", "--edition=2024", "--crate-name", "consumer", "--crate-type", "lib", "proc-macro", "bin", "--test", "--cfg", "feature=\"syn2\"", "feature=\"std\"", "-C", "opt-level=3", "debuginfo=2", "--target", "wasm32-unknown-unknown", "--cap-lints", "allow", "--error-format=json", "--color=never", "-Zunpretty=expanded",
+    "--release", "-vv",
+];
 
 pub fn plan_env(rng: &mut Rng, feedback: &[String]) -> Vec<(String, String)> {
     let mut env: Vec<(String, String)> = Vec::new();
@@ -352,7 +421,8 @@ pub fn plan_env(rng: &mut Rng, feedback: &[String]) -> Vec<(String, String)> {
     // variables the expander was *observed* to read in earlier worlds are always varied
     for k in feedback {
         if !env.iter().any(|e| &e.0 == k) && rng.chance(3, 4) {
-            env.push((k.clone(), format!("{}", rng.next_u64() % 1000)));
+            let v = if rng.chance(1, 2) { format!("{}", rng.next_u64() % 1000) } else { rng.pick(&ENV_VALUES).to_string() };
+            env.push((k.clone(), v));
         }
     }
     // junk of seeded size: shifts the initial stack
@@ -363,11 +433,50 @@ pub fn plan_env(rng: &mut Rng, feedback: &[String]) -> Vec<(String, String)> {
     env
 }
 
+const FS_CONTENTS: [&str; 6] = [
+    "",
+    "\n",
+    "# o2o\ndebug = true\nsort = \"none\"\nseed = 7\n",
+    "[package]\nname = \"renamed-crate\"\nversion = \"9.9.9\"\n\n[dependencies]\no2o_renamed = { package = \"o2o\", version = \"0.5\" }\n\n[package.metadata.o2o]\nstrict = true\n",
+    "{\"version\": 2, \"entries\": [\"Entity\", \"EntityDto\"]}\n",
+    "1\n",
+];
+
+/// File-system view for one host.  Only paths the expander was *observed* to touch can
+/// matter, so the view is built from the feedback set: each such path is, per host, left
+/// alone, made absent, or redirected to one of a few seeded contents.
+pub fn plan_fs(rng: &mut Rng, fs_feedback: &[String]) -> Vec<(char, String, String)> {
+    let mut v = Vec::new();
+    for p in fs_feedback {
+        if p.starts_with("call:") || p.starts_with("/dev/") || p.starts_with("/proc/") || p.starts_with("/sys/") {
+            continue;
+        }
+        let key = p.rsplit('/').next().unwrap_or(p).to_string();
+        if key.is_empty() || v.iter().any(|e: &(char, String, String)| e.1 == key) || v.len() >= 12 {
+            continue;
+        }
+        match rng.below(4) {
+            0 => {},
+            1 => v.push(('N', key, String::new())),
+            _ => {
+                let mut c = rng.pick(&FS_CONTENTS).to_string();
+                if rng.chance(1, 2) {
+                    c.push_str(&format!("stamp = {}\n", rng.next_u64() % 1000));
+                }
+                v.push(('R', key, c));
+            },
+        }
+    }
+    v
+}
+
 pub struct PlanOpts {
     pub backend: Option<Backend>,
     pub build: Option<Build>,
     pub hooked_available: bool,
     pub feedback: Vec<String>,
+    /// paths the expander was observed to touch during expansions (file-system feedback)
+    pub fs_feedback: Vec<String>,
     pub cwds: Vec<String>,
     pub max_inputs: usize,
 }
@@ -446,7 +555,7 @@ pub fn plan_world(ws: u64, corpus: &Corpus, o: &PlanOpts) -> World {
         }
         if f & F_CLOCK != 0 {
             cfg.clock_epoch_ns = (rng.next_u64() % 4_000_000_000_000_000_000) as i64;
-            cfg.clock_step_ns = *rng.pick(&[1i64, 1000, 1_000_000, 999_999_937, 0]);
+            cfg.clock_step_ns = *rng.pick(&[1i64, 1000, 1_000_000, 999_999_937, 0, 61_000_000_000, 3_600_000_000_000, 86_400_000_000_000]);
         }
         if f & F_PID != 0 {
             cfg.pid = 2 + (rng.next_u64() % 4_000_000) as u32;
@@ -455,16 +564,30 @@ pub fn plan_world(ws: u64, corpus: &Corpus, o: &PlanOpts) -> World {
             cfg.cwd = rng.pick(&o.cwds).clone();
         }
         if f & F_ARGV != 0 {
-            let n = rng.range(1, 3);
+            let n = rng.range(1, 6);
             for _ in 0..n {
-                cfg.argv.push(format!("--sim-arg={}", rng.next_u64() % 1000));
+                if rng.chance(1, 6) {
+                    cfg.argv.push(format!("--sim-arg={}", rng.next_u64() % 1000));
+                } else {
+                    cfg.argv.push(rng.pick(&ARGV_POOL).to_string());
+                }
             }
+        }
+        if f & F_IDENT != 0 {
+            cfg.hostname = Some(format!("build-{}", rng.next_u64() % 100));
+            cfg.uid = Some(*rng.pick(&[0u32, 1000, 1001, 65534]));
+            cfg.ncpu = Some(*rng.pick(&[1u32, 2, 3, 8, 64]));
+        }
+        if f & F_FS != 0 {
+            cfg.fs_map = plan_fs(&mut rng, &o.fs_feedback);
         }
         // history
         let nthreads = if f & F_THREAD != 0 { rng.range(2, 4) } else { 1 };
         let mut order: Vec<u32> = (0..k as u32).collect();
         if f & F_HISTORY != 0 {
-            let extra = rng.range(0, k / 2 + 1);
+            // 1 in 12 such hosts runs a marathon: hundreds of expansions in one process
+            // (counter wrap-arounds, caches that fill up or expire)
+            let extra = if rng.chance(1, 12) { rng.range(260, 700) } else { rng.range(0, k / 2 + 1) };
             for _ in 0..extra {
                 order.push(rng.below(k as u64) as u32);
             }
